@@ -8,6 +8,7 @@ Import ListNotations.
 From Verif Require Import Base.PyValue Base.StableSort Base.Decimal Model.Dates Model.Ledger Model.Tables
   Proofs.TablesProofs.
 From Verif Require Model.RegistrySnapshot Gen.Registry.
+From Verif Require Model.Inventory Model.PrimsEnvLedger Gen.SrcEnvLedger Proofs.SrcEnvLedger.
 Open Scope list_scope.
 Open Scope Z_scope.
 
@@ -392,3 +393,68 @@ Example C11_source_postings_example :
         PList [row_obj 1 (enc_directive t) (enc_posting (mkposting [65] (mkamount (mkdec false 1 0) [85]) None None None None));
                row_obj 2 (enc_directive t) (enc_posting (mkposting [66] (mkamount (mkdec true 1 0) [85]) None None None None))]).
 Proof. vm_compute. reflexivity. Qed.
+
+(* ---- tie by translation, group `envledger`: the SOURCE of open_date / close_date / open_meta / commodity_meta
+   (= currency_meta) and of the __call__ methods of the two registered getitem classes - what the compiler rewrites
+   meta(k), entry_meta(k) and any_meta(k) into - translated into PyMini on every run (Gen/SrcEnvLedger.v), computes the
+   metadata lookups of Model/Tables.v, for every ledger, account, currency, key and postings row (Model/PrimsEnvLedger.v;
+   proofs in Proofs/SrcEnvLedger.v).  `context.tables['accounts'].accounts` / `['commodities'].commodities` are the
+   first parameter; getitem's operands are opaque children evaluated on the row. ---- *)
+Import Verif.Model.PrimsEnvLedger Verif.Gen.SrcEnvLedger Verif.Proofs.SrcEnvLedger.
+
+Theorem C11_source_open_date : forall (price : Inventory.currency -> Inventory.currency -> option Z -> option Z) (one : Z) (upper : Inventory.currency -> Inventory.currency) (call_ref : nat -> list pv -> pv), forall l a, call_function call_ref (prim_envledger price one upper) envl_open_date [enc_accounts l; pzstr a] = Ok (enc_cell (f_open_date l a)).
+Proof. exact open_date_src. Qed.
+Print Assumptions C11_source_open_date.
+
+Theorem C11_source_close_date : forall (price : Inventory.currency -> Inventory.currency -> option Z -> option Z) (one : Z) (upper : Inventory.currency -> Inventory.currency) (call_ref : nat -> list pv -> pv), forall l a, call_function call_ref (prim_envledger price one upper) envl_close_date [enc_accounts l; pzstr a] = Ok (enc_cell (f_close_date l a)).
+Proof. exact close_date_src. Qed.
+Print Assumptions C11_source_close_date.
+
+Theorem C11_source_open_meta1 : forall (price : Inventory.currency -> Inventory.currency -> option Z -> option Z) (one : Z) (upper : Inventory.currency -> Inventory.currency) (call_ref : nat -> list pv -> pv), forall l a, call_function call_ref (prim_envledger price one upper) envl_open_meta [enc_accounts l; pzstr a; PNone] = Ok (enc_cell (f_open_meta1 l a)).
+Proof. exact open_meta1_src. Qed.
+Print Assumptions C11_source_open_meta1.
+
+Theorem C11_source_open_meta : forall (price : Inventory.currency -> Inventory.currency -> option Z -> option Z) (one : Z) (upper : Inventory.currency -> Inventory.currency) (call_ref : nat -> list pv -> pv), forall l a k, call_function call_ref (prim_envledger price one upper) envl_open_meta [enc_accounts l; pzstr a; pzstr k] = Ok (enc_cell (f_open_meta l a k)).
+Proof. exact open_meta_src. Qed.
+Print Assumptions C11_source_open_meta.
+
+Theorem C11_source_commodity_meta1 : forall (price : Inventory.currency -> Inventory.currency -> option Z -> option Z) (one : Z) (upper : Inventory.currency -> Inventory.currency) (call_ref : nat -> list pv -> pv), forall l c, call_function call_ref (prim_envledger price one upper) envl_currency_meta [enc_commodities l; pzstr c; PNone] = Ok (enc_cell (f_commodity_meta1 l c)).
+Proof. exact commodity_meta1_src. Qed.
+Print Assumptions C11_source_commodity_meta1.
+
+Theorem C11_source_commodity_meta : forall (price : Inventory.currency -> Inventory.currency -> option Z -> option Z) (one : Z) (upper : Inventory.currency -> Inventory.currency) (call_ref : nat -> list pv -> pv), forall l c k, call_function call_ref (prim_envledger price one upper) envl_currency_meta [enc_commodities l; pzstr c; pzstr k] = Ok (enc_cell (f_commodity_meta l c k)).
+Proof. exact commodity_meta_src. Qed.
+Print Assumptions C11_source_commodity_meta.
+
+Theorem C11_source_getitem2 : forall (price : Inventory.currency -> Inventory.currency -> option Z -> option Z) (one : Z) (upper : Inventory.currency -> Inventory.currency) (call_ref : nat -> list pv -> pv), forall (m : option metadata) k ko kk row, call_ref ko [row] = popt enc_meta m -> call_ref kk [row] = pzstr k -> call_method call_ref (prim_envledger price one upper) envl_getitem2 (getitem_flds [ko; kk]) [row] = Ok (getitem_flds [ko; kk], enc_cell (match m with None => CNull | Some m => meta_get m k end)).
+Proof. exact getitem2_src. Qed.
+Print Assumptions C11_source_getitem2.
+
+Theorem C11_source_getitem3 : forall (price : Inventory.currency -> Inventory.currency -> option Z -> option Z) (one : Z) (upper : Inventory.currency -> Inventory.currency) (call_ref : nat -> list pv -> pv), forall (m : option metadata) k dv ko kk kd row, call_ref ko [row] = popt enc_meta m -> call_ref kk [row] = pzstr k -> call_ref kd [row] = dv -> (forall e, dv <> PV (VErr e)) -> call_method call_ref (prim_envledger price one upper) envl_getitem3 (getitem_flds [ko; kk; kd]) [row] = Ok (getitem_flds [ko; kk; kd], match m with | None => PNone | Some m => match dict_get m k with Some v => enc_mvalue v | None => dv end end).
+Proof. exact getitem3_src. Qed.
+Print Assumptions C11_source_getitem3.
+
+Theorem C11_source_meta : forall (price : Inventory.currency -> Inventory.currency -> option Z -> option Z) (one : Z) (upper : Inventory.currency -> Inventory.currency) (call_ref : nat -> list pv -> pv), forall (r : prow) k ko kk row, call_ref ko [row] = popt enc_meta (p_meta (pr_posting r)) -> call_ref kk [row] = pzstr k -> call_method call_ref (prim_envledger price one upper) envl_getitem2 (getitem_flds [ko; kk]) [row] = Ok (getitem_flds [ko; kk], enc_cell (f_meta r k)).
+Proof. exact meta_src. Qed.
+Print Assumptions C11_source_meta.
+
+Theorem C11_source_entry_meta : forall (price : Inventory.currency -> Inventory.currency -> option Z -> option Z) (one : Z) (upper : Inventory.currency -> Inventory.currency) (call_ref : nat -> list pv -> pv), forall (r : prow) k ko kk row, call_ref ko [row] = enc_meta (d_meta (pr_entry r)) -> call_ref kk [row] = pzstr k -> call_method call_ref (prim_envledger price one upper) envl_getitem2 (getitem_flds [ko; kk]) [row] = Ok (getitem_flds [ko; kk], enc_cell (f_entry_meta r k)).
+Proof. exact entry_meta_src. Qed.
+Print Assumptions C11_source_entry_meta.
+
+Theorem C11_source_any_meta : forall (price : Inventory.currency -> Inventory.currency -> option Z -> option Z) (one : Z) (upper : Inventory.currency -> Inventory.currency) (call_ref : nat -> list pv -> pv), forall (r : prow) k ko kk kd row, call_ref ko [row] = popt enc_meta (p_meta (pr_posting r)) -> call_ref kk [row] = pzstr k -> call_ref kd [row] = enc_cell (f_entry_meta r k) -> call_method call_ref (prim_envledger price one upper) envl_getitem3 (getitem_flds [ko; kk; kd]) [row] = Ok (getitem_flds [ko; kk; kd], enc_cell (f_any_meta r k)).
+Proof. exact any_meta_src. Qed.
+Print Assumptions C11_source_any_meta.
+
+(* Non-vacuity: the hypotheses about the operand children are satisfiable; getitem(meta, 'k', <default>) on a posting
+   whose metadata lacks the key returns the default, and NULL when the posting has no metadata. *)
+Example C11_source_getitem3_example :
+  let k := s2z "k" in
+  let m : metadata := [(s2z "j", MInt 1)] in
+  let cr := fun (mm : option metadata) (n : nat) (_ : list pv) =>
+    match n with O => popt enc_meta mm | S O => pzstr k | _ => PInt 7 end in
+  call_method (cr (Some m)) (prim_envledger (fun _ _ _ => None) 1 (fun c => c)) envl_getitem3
+    (getitem_flds [0%nat; 1%nat; 2%nat]) [PNone] = Ok (getitem_flds [0%nat; 1%nat; 2%nat], PInt 7) /\
+  call_method (cr None) (prim_envledger (fun _ _ _ => None) 1 (fun c => c)) envl_getitem3
+    (getitem_flds [0%nat; 1%nat; 2%nat]) [PNone] = Ok (getitem_flds [0%nat; 1%nat; 2%nat], PNone).
+Proof. split; vm_compute; reflexivity. Qed.
